@@ -208,10 +208,11 @@ structure Var where
   set : Bool       -- Variable.Set: what `IsSet` reports, and what the `unset` builtin looks at
   str : Str
   arr : Arr
-  /-- `Variable.List == nil` although the variable is an array: what `read -a` and `mapfile` store
-      when there is no field / line (array literals store `[]string{}` instead).  The expansion
-      code tells the two apart: `"${a[@]}"` of a nil list yields one empty field (finding
-      C33-empty-read-array-one-field); `unset 'a[i]'` keeps a nil list nil. -/
+  /-- `Variable.List == nil` although the variable is an array.  The expansion code tells nil and
+      empty apart (`"${a[@]}"` of a nil list yields one empty field), which is why every operation
+      stores `[]string{}`; since 87a26e0 (`read -a`, `mapfile`) no modelled operation produces a
+      nil list, so the flag stays false.  It is kept so that the final-variable probe (`progrep`)
+      can say so. -/
   nilList : Bool
   deriving DecidableEq, Repr
 
@@ -329,11 +330,11 @@ def applyOp (v : Var) : Op → Res Var
     | .unknown => .ok v
   | .unsetAll => if v.set then .ok Var.zero else .ok v   -- builtin unset: `lookupVar(arg).IsSet()`
   -- builtin read -a: `r.setVar(arrayName, expand.Variable{Set: true, Kind: Indexed, List: values})`,
-  -- a fresh variable: nil Indexes, empty Str
-  | .readArr vs => .ok ⟨.indexed, true, [], ⟨vs, none⟩, vs.isEmpty⟩
-  -- builtin mapfile: `var vr expand.Variable; vr.Kind = Indexed; vr.List = append(…)`: also fresh,
-  -- but `Set` stays false
-  | .mapfile vs => .ok ⟨.indexed, false, [], ⟨vs, none⟩, vs.isEmpty⟩
+  -- a fresh variable: nil Indexes, empty Str, and `[]string{}` rather than nil for no fields
+  | .readArr vs => .ok ⟨.indexed, true, [], ⟨vs, none⟩, false⟩
+  -- builtin mapfile: `var vr expand.Variable; vr.Kind = Indexed; vr.Set = true; vr.List = []string{}`
+  -- then one append per line: also a fresh variable
+  | .mapfile vs => .ok ⟨.indexed, true, [], ⟨vs, none⟩, false⟩
 
 def runOps (v : Var) : List Op → Res Var
   | [] => .ok v
@@ -491,15 +492,11 @@ structure Var.WF (v : Var) : Prop where
   arr : v.arr.WF
   zero : v.kind = .unknown → v.str = []
 
-/-- Every scalar or array `IsSet()`.  All operations keep this except `mapfile`, which builds its
-    variable without `Set` (finding C33-mapfile-not-set). -/
+/-- Every scalar or array `IsSet()` (what the `unset` builtin looks at); kept by every operation. -/
 def Var.SetOK (v : Var) : Prop := v.kind ≠ .unknown → v.set = true
 
-/-! ### Where the code is known to differ from bash (the recorded finding), as a decidable side
-    condition on a run -/
-
-/-- `unset a` works only on a variable that `IsSet()`; an array freshly made by `mapfile` is not
-    (until a later assignment sets the flag), and the builtin silently leaves it alone. -/
+/-- `unset a` takes effect only on a variable that `IsSet()`: the side condition under which a
+    single step refines bash.  `run_always_ok` shows it holds along every run. -/
 def opOK (v : Var) : Op → Bool
   | .unsetAll => v.set || v.kind == .unknown
   | _ => true
@@ -511,9 +508,5 @@ def runOK (v : Var) : List Op → Bool
       match applyOp v op with
       | .ok v' => runOK v' ops
       | .panic => false
-
-def isMapfile : Op → Bool
-  | .mapfile _ => true
-  | _ => false
 
 end ShVerif.C33
